@@ -477,3 +477,16 @@ pub fn hist_entries(h: &HistRaw) -> Vec<Vec<u8>> {
     }
     out
 }
+
+/// a caller-provided buffer of `n` bytes with one of five initial contents (chosen by `salt`): 0xAA, zeroes, 0xFF, the remains of an
+/// earlier session (lines separated by NULs, as a history buffer would hold them), ill-formed UTF-8
+pub fn filled(n: usize, salt: usize) -> Box<[u8]> {
+    let pat: &[u8] = match salt % 5 {
+        0 => &[0xAA],
+        1 => &[0x00],
+        2 => &[0xFF],
+        3 => b"help\0ab x\0\0b -h\0\xc3\xa9\0",
+        _ => &[0xE2, 0x82, 0x00, 0x80, b'a', 0xF0],
+    };
+    (0..n).map(|i| pat[i % pat.len()]).collect::<Vec<u8>>().into_boxed_slice()
+}
